@@ -419,7 +419,14 @@ func call(p *Path, caller *frame, callpos token.Pos, fn value, args []value) val
 func callSSA(p *Path, caller *frame, callpos token.Pos, fn *ssa.Function, args []value, env []value) value {
 	fr := &frame{p: p, caller: caller, fn: fn}
 	if fn.Parent() == nil {
-		if m := p.eng.funcInfo(fn).model; m != nil {
+		info := p.eng.funcInfo(fn)
+		if info.intercept != "" {
+			if target := p.h.Pkg.Func(info.intercept); target != nil && target != fn {
+				p.noteModel(fn)
+				return callSSA(p, caller, callpos, target, args, nil)
+			}
+		}
+		if m := info.model; m != nil {
 			p.noteModel(fn)
 			return m(caller, fn, args)
 		}
